@@ -243,9 +243,20 @@ class C15(Property):
             payload = la.copy()
             info_a = fm.Info(time=slots.T0, grid=ga, units="m")
         info_b = fm.Info(time=slots.T0, grid=gb, units="m")
-        o, (i,) = slots.simple_link(info_a, info_b)
-        o.push_data(payload, slots.T0)
+        static = spec["mseed"] % 5 == 0
+        if static:
+            info_a.time = info_b.time = None
+        o, (i,) = slots.simple_link(info_a, info_b, static=static)
+        o.push_data(payload, None if static else slots.T0)
         got = i.pull_data(slots.T0)
+        if static:
+            # a static input serves its cached value: every later pull must be the same located data
+            for k in range(2):
+                again = i.pull_data(slots.t(3600 * (k + 1)))
+                if np.shape(again.magnitude) != np.shape(got.magnitude) or not np.array_equal(np.ma.getdata(again.magnitude), np.ma.getdata(got.magnitude)):
+                    out.viol("static_link_repeated_pull", f"pull #{k + 2} on a static re-layout link differs from the first pull", a=a, b=b)
+                    return out
+            out.count("static_link_pulls")
         out.count("link_pulls")
         mag = got.magnitude
         if mag.shape != (1,) + tuple(lb.shape):
@@ -276,7 +287,7 @@ class C15(Property):
 
     def coverage_gaps(self, counters, tier):
         need = ["compatible_pairs", "incompatible_pairs", "canonical_roundtrips", "transforms_no_time", "transform_none_equal_layout",
-                "link_pulls", "masked_link_pulls", "relayout_links", "equal_layout_links", "incompatible_links_refused", "grids_with_changed_data_location"]
+                "link_pulls", "masked_link_pulls", "relayout_links", "equal_layout_links", "incompatible_links_refused", "grids_with_changed_data_location", "static_link_pulls"]
         return [f"{k} never observed" for k in need if not counters.get(k)]
 
 
